@@ -272,3 +272,32 @@ for text, kind, val in (('3', 'int', 3), ('0', 'int', 0), ('007', 'int', 7), ('9
         return {'self': PL.parser(b, first_token=PL.concrete_token(b.I, 'NUMBER', text))}
     c.setup(_setup)
     c.ensures('the-number-it-spells-as-the-kind-it-spells', "result == %r and typename(result) == '%s' and self._error_output == ''" % (val, kind))
+
+
+# ---- round 9: "using a pattern never changes what any other pattern matches later" with the REAL bodies of the constructor and its
+#      helpers (the contracts above stand in for _init_hour_set / _init_minute_set at call sites, so state kept *between* two
+#      constructions - a table of field sets keyed by the field text, say - would be invisible to them).  Concrete field texts that are
+#      legal in both positions; the same text is used as an hour field first and as a minute field afterwards, and the other way round.
+for _f in ('0*', '1*', '2*', '*0', '*3', '*5', '*9', '*', '05', '23', '10'):
+    c = contract(T, 'same_field_in_both_positions', serves=['C11', 'C17'],
+                 name='lemma:TimePattern(%s, ..) then TimePattern(.., %s) and the reverse [real bodies]' % (_f, _f), src='''
+def same_field_in_both_positions(f, H, M):
+    a = TimePattern(f, '00')
+    b = TimePattern('8', f)
+    c = TimePattern('9', f)
+    d = TimePattern(f, '30')
+    return (a.match(H, 0), b.match(8, M), c.match(9, M), d.match(H, 30))
+''')
+    def _setup(b, case, f=_f):
+        H, Mi = b.sym('int', 'H'), b.sym('int', 'M')
+        b.between(H, 0, 23)
+        b.between(Mi, 0, 59)
+        return {'f': f, 'H': H, 'M': Mi}
+    c.setup(_setup)
+    c.no_loop_cuts = True
+    c.real_bodies_only = True
+    c.bounded('one concrete field text; every hour and minute')
+    c.ensures('hour-use-first', 'iff(result[0], field_matches(f, H))')
+    c.ensures('minute-use-after-hour-use', 'iff(result[1], field_matches(f, M))')
+    c.ensures('minute-use-again', 'iff(result[2], field_matches(f, M))')
+    c.ensures('hour-use-after-minute-use', 'iff(result[3], field_matches(f, H))')
